@@ -5,7 +5,7 @@ LEAN_TARGETS = ['DawgieVerif.Model.SchedIO']
 TRUSTED = sched_run.TRUSTED
 MANIFEST = dict(
     text='Lean theorems over Model/Sched.lean for the scheduling clauses: update_complete (every direct dependent declaring a reported-new value as input, and every feedback consumer, gets the affected target(s) pending and is queued), update_minimal and growth_has_cause (in every step pending work grows only by an explicit/versions request naming the node, a timer event naming it, or a success report with a new value it consumes), released_was_pending. Tied to the real schedule.update/organize and farm.Hand._res by op-by-op correspondence; the monitor checks each real success report against the declared inputs of the synthetic engine.',
-    note="PARTIAL: the consequence 'stored results at quiescence equal a from-scratch run' (quiescent_fresh) is NOT proved as a theorem; it is checked on the real scheduler by the epoch scenario (deterministic digest-valued algorithms, a reference content-addressed store deciding novelty, root re-runs, comparison with a from-scratch evaluation at quiescence) on every feedback-free shape; transitivity is obtained by applying the step theorems to every later report, not stated as one theorem. Target names contain no '.' (schedule.update recovers the target with split('.')). Trusted base as C01.",
+    note="PARTIAL: the consequence 'stored results at quiescence equal a from-scratch run' (quiescent_fresh) is NOT proved as a theorem; it is checked (a) end to end by harness/c02_e2e.py: real scanner/Construct/scheduler/farm, real worker Context.run and Task.do, real shelve store through the loop-back with novelty from the stored digests, task engines with value-level inputs and check-pointing algorithms, root re-runs, read-back through the real load path at every quiescence against a from-scratch evaluation, plus an execution log for needless re-runs; (b) on the real scheduler by the epoch scenario (deterministic digest-valued algorithms, a reference content-addressed store deciding novelty, root re-runs, comparison with a from-scratch evaluation at quiescence) on every feedback-free shape; transitivity is obtained by applying the step theorems to every later report, not stated as one theorem. Target names contain no '.' (schedule.update recovers the target with split('.')). Trusted base as C01.",
     technique='Lean 4 proof: decision logic of update/organize stated outright, case analysis over all ops + differential correspondence',
     design='7/C02',
 )
@@ -14,7 +14,15 @@ WANT = {'C02'}
 
 def run(ctx, res):
     sched_run.run_all(ctx, res, WANT, 'C02')
+    # end to end: scheduler -> farm message -> real worker Context.run -> real shelve store ->
+    # new-value report -> scheduler; stored results at quiescence vs a from-scratch evaluation
+    from . import c02_e2e
+    c02_e2e.run(ctx, res)
 
 
 def replay(rep, res):
-    sched_run.replay_case(rep, res, WANT)
+    if str(rep.get('sig', '')).startswith('C02:e2e'):
+        from . import c02_e2e
+        c02_e2e.replay(rep, res)
+    else:
+        sched_run.replay_case(rep, res, WANT)
